@@ -43,6 +43,31 @@ def close(a, b, rel):
     if math.isinf(a) or math.isinf(b): return False
     return abs(a - b) <= rel * max(abs(a), abs(b)) + 1e-300
 
+def build_java_dat(sc, jd, data_root=None):
+    """java/pr_data_java.c of the working tree, linked with the objects of the build-time generator (cbuild.build_prdata / ctx.build_c must have
+    run in this scratch), executed as java/Makefile.am does -> <jd>/xraylib.dat, copied next to the classes (<jd>/classes).  Shared with C20."""
+    os.makedirs(os.path.join(jd, 'classes'), exist_ok=True)
+    pobjs = [o for o in glob.glob(sc.path('o_prdata', '*.o')) if not o.endswith('pr_data.c.o')]
+    fl = cbuild.cflags(REPO, sc.path('b')) + ['-O1', '-g0', '-w']
+    cbuild.run(['clang-14'] + fl + [os.path.join(REPO, 'java', 'pr_data_java.c')] + pobjs + ['-lm', '-o', os.path.join(jd, 'prdata_java')])
+    p = subprocess.run([os.path.join(jd, 'prdata_java'), data_root or REPO], cwd=jd, capture_output=True, text=True)
+    dat = os.path.join(jd, 'xraylib.dat')
+    if p.returncode != 0 or not os.path.exists(dat) or os.path.getsize(dat) < 1000:
+        raise BuildError('java/pr_data_java.c did not produce xraylib.dat: exit %d %s' % (p.returncode, (p.stdout + p.stderr)[-1500:]))
+    shutil.copy(dat, os.path.join(jd, 'classes', 'xraylib.dat'))
+    return dat
+
+def build_java_classes(jd):
+    """javac of the working tree's java/*.java (commons-math3 is not installed: `Complex`, of which only the constructor is used, is the harness'
+    stub) -> <jd>/classes; returns (listed sources, further sources found).  Shared with C20."""
+    srcs = [os.path.join(REPO, 'java', f) for f in JAVA_SRC]
+    extra = sorted(set(glob.glob(os.path.join(REPO, 'java', '*.java'))) - set(srcs))
+    stub = os.path.join(xdrv.HARNESS, 'java', 'stub', 'org', 'apache', 'commons', 'math3', 'complex', 'Complex.java')
+    pj = subprocess.run(['javac', '-encoding', 'UTF-8', '-nowarn', '-d', os.path.join(jd, 'classes'), stub] + srcs + extra, capture_output=True, text=True)
+    if pj.returncode != 0: raise BuildError('javac failed on /repo/java (with the Complex stub): ' + (pj.stdout + pj.stderr)[-3000:])
+    return srcs, extra
+
+
 class C19:
     id = 'C19'
 
@@ -83,22 +108,10 @@ class C19:
         ssc = _Sub(sc, tag)
         cdrv, _ = xdrv.build_c_driver(ssc, objs, cfl, aux)
         ctx.tick('c_build' + tag, t); t = time.time()
-        # xraylib.dat
-        jd = sc.path('java' + tag); os.makedirs(os.path.join(jd, 'classes'), exist_ok=True)
-        pobjs = [o for o in glob.glob(sc.path('o_prdata', '*.o')) if not o.endswith('pr_data.c.o')]
-        fl = cbuild.cflags(REPO, sc.path('b')) + ['-O1', '-g0', '-w']
-        cbuild.run(['clang-14'] + fl + [os.path.join(REPO, 'java', 'pr_data_java.c')] + pobjs + ['-lm', '-o', os.path.join(jd, 'prdata_java')])
-        p = subprocess.run([os.path.join(jd, 'prdata_java'), data_root or REPO], cwd=jd, capture_output=True, text=True)
-        dat = os.path.join(jd, 'xraylib.dat')
-        if p.returncode != 0 or not os.path.exists(dat) or os.path.getsize(dat) < 1000:
-            raise BuildError('java/pr_data_java.c did not produce xraylib.dat: exit %d %s' % (p.returncode, (p.stdout + p.stderr)[-1500:]))
-        shutil.copy(dat, os.path.join(jd, 'classes', 'xraylib.dat'))
-        # Java
-        srcs = [os.path.join(REPO, 'java', f) for f in JAVA_SRC]
-        extra = sorted(set(glob.glob(os.path.join(REPO, 'java', '*.java'))) - set(srcs))
-        stub = os.path.join(xdrv.HARNESS, 'java', 'stub', 'org', 'apache', 'commons', 'math3', 'complex', 'Complex.java')
-        pj = subprocess.run(['javac', '-encoding', 'UTF-8', '-nowarn', '-d', os.path.join(jd, 'classes'), stub] + srcs + extra, capture_output=True, text=True)
-        if pj.returncode != 0: raise BuildError('javac failed on /repo/java (with the Complex stub): ' + (pj.stdout + pj.stderr)[-3000:])
+        # xraylib.dat, Java classes
+        jd = sc.path('java' + tag)
+        dat = build_java_dat(sc, jd, data_root)
+        srcs, extra = build_java_classes(jd)
         pj = subprocess.run(['javac', '-encoding', 'UTF-8', '-nowarn', '-cp', os.path.join(jd, 'classes'), '-d', os.path.join(jd, 'classes'),
                              os.path.join(xdrv.HARNESS, 'java', 'XrlDrv.java')], capture_output=True, text=True)
         if pj.returncode != 0: raise BuildError('javac failed on the driver (a public member it prints has changed?): ' + (pj.stdout + pj.stderr)[-3000:])
